@@ -357,6 +357,59 @@ def run_chunk(arg):
     return recs
 
 
+# ----------------------------------------------------------------------------------
+# explicit deterministic cases at the low end of the claimed range (spec/FitLawsCases.tla)
+
+def lowend_key(c):
+    _, names = _families(_vc())[c["fam"]]
+    th = ",".join(f"{v / 1e6:g}" for v in c["theta"])
+    fixed = names[c["fix"] - 1] if c["fix"] else "none"
+    return f"lowend {c['fam']} fixed={fixed} theta=({th}) n={c['n']} seed={c['seed']}"
+
+
+def lowend_record(rid, c):
+    """default-start MLE of x and of 10*x (a parameter optionally fixed at its generating value), projected
+    into the life-cycle record (the re-fit transition is not exercised: p3 = p1)"""
+    vc = _vc()
+    mk, names = _families(vc)[c["fam"]]
+    theta, thetac = [v / 1e6 for v in c["theta"]], [v / 1e6 for v in c["thetac"]]
+    rng = np.random.default_rng(c["seed"])
+    fam, n = c["fam"], c["n"]
+    if fam == "Weibull":
+        x = theta[0] * rng.weibull(theta[1], n)
+    elif fam == "GeneralizedGamma":
+        x = rng.gamma(theta[0], size=n) ** (1 / theta[1]) / theta[2]
+    else:
+        u = rng.uniform(size=n)
+        x = theta[0] * (-np.log1p(-u ** (1 / theta[2]))) ** (1 / theta[1])
+    fixed = {"f_" + names[c["fix"] - 1]: theta[c["fix"] - 1]} if c["fix"] else {}
+    fixedc = {"f_" + names[c["fix"] - 1]: thetac[c["fix"] - 1]} if c["fix"] else {}
+    rec = dict(id=rid, fam=fam, num=10, den=1, kind="default", n=n, label="lowend", exc="", kfix=0,
+               bitsA=[], bitsB=[], bits10=[], bits1A=[], bits1C=[], bits1H=[],
+               fx_ll0=NEG, fx_ll=0, fx_pert=NEG, fx_fin=True, mean1=0, std1=0, mean2=0, std2=0)
+    with warnings.catch_warnings():
+        warnings.simplefilter("ignore")
+        try:
+            o1 = mk(**fixed)
+            p0, _ = qpar(o1.parameters[k] for k in names)
+            ll0 = loglik(o1, x)
+            o1.fit(x)
+            p1, fin1 = qpar(o1.parameters[k] for k in names)
+            o2 = mk(**fixedc)
+            xc = 10.0 * x
+            ll0c = loglik(o2, xc)
+            o2.fit(xc)
+            p2, fin2 = qpar(o2.parameters[k] for k in names)
+            rec.update(p0=p0, start=p0, p1=p1, p2=p2, p3=p1, fin1=fin1, fin2=fin2, fin3=fin1,
+                       ll0=qll(ll0), ll1=qll(loglik(o1, x)),
+                       llg=qll(loglik(mk(**dict(zip(names, theta))), x)),
+                       ll0c=qll(ll0c), ll2=qll(loglik(o2, xc)), llgc=qll(loglik(mk(**dict(zip(names, thetac))), xc)))
+            rec["ll3"] = max(rec["ll1"], rec["llg"])     # neutral: there is no re-fit transition in these cases
+        except Exception as e:  # noqa
+            rec.update(exc=f"{type(e).__name__}: {e}"[:200], fin1=True, fin2=True, fin3=True)
+    return rec
+
+
 def case_key(c):
     th = ",".join(f"{v / 1e6:g}" for v in c["theta"])
     # no sample-specific numbers: family, class (regime label), generating vector of the class, n, c, start, rep
@@ -469,6 +522,17 @@ def run(ctx):
     recs = execute(ctx, cases)
     failing = judge(ctx, cases, recs)
     ctx.log(f"{len(recs)} fit life cycles judged, {len(failing)} rejected")
+    # explicit deterministic cases: default-start MLE at the low end of the claimed range
+    lows = sorted(ctx.generate("FitLawsCases", "Gen_FitLawsCases.cfg"), key=lowend_key)
+    lrecs = [lowend_record(10_000_000 + i, c) for i, c in enumerate(lows)]
+    lfail = ctx.validate("Trace_C12", "Trace_C12.cfg", lrecs)
+    for c, r in zip(lows, lrecs):
+        ctx.case(lowend_key(c), r["exc"] == "")
+        for clause in lfail.get(r["id"], []):
+            detail = {k: r.get(k) for k in ("exc", "p1", "p2", "llg", "ll1", "llgc", "ll2")}
+            ctx.violation(clause, lowend_key(c), f"record={detail}", replay=c)
+    ctx.log(f"{len(lrecs)} low-end cases judged, {len(lfail)} rejected")
+    ctx.notes["lowend_cases"] = len(lrecs)
     selftest(ctx, cases, recs, failing)
     fams = sorted({c["fam"] for c in cases})
     ctx.notes["families"] = fams
@@ -483,5 +547,11 @@ def run(ctx):
 def replay(ctx, case):
     c = case["case"]
     _vc()
+    if c.get("kind") == "lowend":
+        r = lowend_record(1, c)
+        ctx.case(lowend_key(c), True)
+        for clause in ctx.validate("Trace_C12", "Trace_C12.cfg", [r]).get(1, []):
+            ctx.violation(clause, lowend_key(c), f"record={r}", replay=c)
+        return
     recs = execute(ctx, [c])
     judge(ctx, [c], recs)
